@@ -93,7 +93,7 @@ pub fn run(outdir: &Path, tier: &str, _seed: u64, shards: usize) {
     vars.push(VarDef { name: "holder".into(), ty: GType::named("Holder"), default: None });
     defs.push(TypeDef::Input { name: "Holder".into(), fields: holder, one_of: false });
     defs.push(TypeDef::Object { name: "Query".into(), implements: vec![], fields: qfields });
-    let schema = SchemaDoc { defs, schema_block: None };
+    let schema = SchemaDoc { defs, schema_block: None , input_defaults: vec![] };
     let doc = QueryDoc { defs: vec![QDef::Op { kind: OpKind::Query, name: Some("Q".into()), vars, sel }] };
     let qtext = doc.render();
     let opts = Opts { operation_name: Some("Q".into()), ..Opts::default() };
